@@ -174,11 +174,11 @@ class AbstractPathModelDAG(ABC):
 
         self.subpath_constraints_coverage = subpath_constraints_coverage
         self.subpath_constraints_coverage_length = subpath_constraints_coverage_length
+        # (checked also without constraints of the caller: safe paths turned into subpath constraints use the same fraction)
+        if not (0 < self.subpath_constraints_coverage <= 1):     # (written so that NaN is rejected too)
+            utils.logger.error(f"{__name__}: subpath_constraints_coverage must be in the range (0, 1]")
+            raise ValueError("subpath_constraints_coverage must be in the range (0, 1]")
         if len(subpath_constraints) > 0:
-            if not (0 < self.subpath_constraints_coverage <= 1):     # (written so that NaN is rejected too)
-                utils.logger.error(f"{__name__}: subpath_constraints_coverage must be in the range (0, 1]")
-                raise ValueError("subpath_constraints_coverage must be in the range (0, 1]")
-                
             if self.subpath_constraints_coverage_length is not None:
                 if not (0 < self.subpath_constraints_coverage_length <= 1):
                     utils.logger.error(f"{__name__}: subpath_constraints_coverage_length must be in the range (0, 1]")
